@@ -1,7 +1,7 @@
 #!/usr/bin/env python3
 """Run checks against a mutated scratch copy of the repository.
 
-  tools/mut.py --checks C11,C12 [--tier quick] --edit 'relpath:::old:::new' ...
+  tools/mut.py --checks C11,C12 [--tier quick] --edit 'relpath@@@old@@@new' ...
   tools/mut.py --checks C11 --patch some.diff
 
 The scratch copy lives under /tmp (outside /repo and /verif) and is removed
@@ -25,7 +25,7 @@ d = tempfile.mkdtemp(prefix="mut_", dir="/tmp")
 try:
   subprocess.check_call(["rsync", "-a", "--exclude", ".git", "--exclude", "__pycache__", "/repo/", d + "/"])
   for e in a.edit:
-    rel, old, new = e.split(":::")
+    rel, old, new = e.split("@@@")
     p = os.path.join(d, rel)
     s = open(p).read()
     if s.count(old) < 1:
